@@ -205,6 +205,7 @@ class Interp:
         self.key_is_primitive = True
         self.max_faults = None    # None = any number of unwinds per path; k = at most k injected unwinds
         self.loop_limit = LOOP_LIMIT
+        self.state_limit = PATH_LIMIT * 50
         self.lists = {}           # list id -> length (k-bounded list model, see listmodel.py)
         self.roles = {}           # crate-local helper path -> discovered role (anchors.py)
 
@@ -666,7 +667,7 @@ class Interp:
         while work:
             bb, st, visits = work.pop()
             self.npaths += 1
-            if self.npaths > PATH_LIMIT * 50:
+            if self.npaths > self.state_limit:
                 raise Undecided("state explosion in %s" % fn["path"])
             n = visits.get(bb, 0)
             if n >= self.loop_limit:
